@@ -96,7 +96,7 @@ def run_coq(runs_with_versions):
 def main():
     R = vf.Report(PID)
     proved = R.proof_step()
-    n = 400 if R.thorough else 34
+    n = 1500 if R.thorough else 34
     hists = list(CATALOGUE) + [gen_history(R.rng) for _ in range(n)]
     env = vf.impl_env({"PYTHONDONTWRITEBYTECODE": ""})
     env.pop("PYTHONDONTWRITEBYTECODE", None)
